@@ -32,6 +32,9 @@ PROPS = {
     "C20": dict(flavours=["asan"], quick=6000, thorough=150000, chunk=100, level="fault_enumeration"),
 }
 
+COLD_RUNS = {"C19": {"quick": 300, "thorough": 8000}}
+COLD_BASE = 10000000
+
 EXIT_CLASSES = {70: "TERMINATE", 71: "ABORT", 72: "HANG", 77: "SANITIZER", 78: "RACE_TSAN"}
 
 
@@ -138,13 +141,13 @@ def parse_lanes(text):
     return lanes
 
 
-def exec_plan(flavour, prop, lanes, describe=False, timeout=120):
+def exec_plan(flavour, prop, lanes, describe=False, timeout=120, cold=False):
     """returns dict(cls, site, tags, detail, hash, lanes(canonical or None), notes, fatal)"""
     fd, path = tempfile.mkstemp(prefix="plan.", dir=os.path.join(VERIF, "out", "tmp"))
     os.close(fd)
     try:
         write_plan(path, lanes)
-        cmd = [binary(flavour), "exec", prop, path] + (["describe"] if describe else [])
+        cmd = [binary(flavour), "exec", prop, path] + (["describe"] if describe else []) + (["cold"] if cold else [])
         try:
             p = subprocess.run(cmd, stdout=subprocess.PIPE, stderr=subprocess.PIPE, timeout=timeout)
             rc, out, err = p.returncode, p.stdout.decode("utf-8", "replace"), p.stderr.decode("utf-8", "replace")
@@ -234,8 +237,8 @@ def match_known(prop, res, known):
 # minimisation (delta debugging over the choice lanes, restricted to one signature)
 # ---------------------------------------------------------------------------------------------------------------
 class Shrinker:
-    def __init__(self, flavour, prop, lanes, target_sig, jobs=16, max_attempts=700, max_seconds=150):
-        self.flavour, self.prop, self.sig = flavour, prop, target_sig
+    def __init__(self, flavour, prop, lanes, target_sig, jobs=16, max_attempts=700, max_seconds=150, cold=False):
+        self.flavour, self.prop, self.sig, self.cold = flavour, prop, target_sig, cold
         self.lanes = {k: list(v) for k, v in lanes.items()}
         self.jobs, self.attempts, self.max_attempts = jobs, 0, max_attempts
         self.deadline = time.time() + max_seconds
@@ -246,7 +249,7 @@ class Shrinker:
         return self.attempts < self.max_attempts and time.time() < self.deadline
 
     def test(self, cand):
-        res = exec_plan(self.flavour, self.prop, cand)
+        res = exec_plan(self.flavour, self.prop, cand, cold=self.cold)
         return res if (res["cls"] != "OK" and signature(res) == self.sig) else None
 
     def try_batch(self, cands):
@@ -424,9 +427,10 @@ def describe_samples(flavour, prop, seed, idxs):
 def process_violation(flavour, prop, seed, raw, known, outdir):
     """gate -> minimise -> classify. returns dict(kind='violation'|'known'|'harness', ...)"""
     idx = raw["idx"]
+    cold = bool(raw.get("cold"))
     lanes = raw.get("lanes") or raw_lanes(flavour, prop, seed, idx)
-    r1 = exec_plan(flavour, prop, lanes)
-    r2 = exec_plan(flavour, prop, lanes)
+    r1 = exec_plan(flavour, prop, lanes, cold=cold)
+    r2 = exec_plan(flavour, prop, lanes, cold=cold)
     if r1["cls"] == "OK" or signature(r1) != signature(r2) or r1["hash"] != r2["hash"] or r1["cls"] != raw["cls"]:
         return dict(kind="harness", msg="run %d of %s: worker reported %s/%s but fresh-process replays gave %s and %s" % (idx, prop, raw["cls"], raw.get("site") or raw.get("tags"), signature(r1), signature(r2)))
     if r1["cls"] == "HANG_WALL":
@@ -435,13 +439,13 @@ def process_violation(flavour, prop, seed, raw, known, outdir):
         return dict(kind="harness", msg="run %d of %s: %s %s has no library frame: defect of the harness or of a dependency, not reported as a violation\n%s" % (idx, prop, r1["cls"], r1["site"], r1.get("stderr", "")[-1500:]))
     sig = signature(r1)
     pre = match_known(prop, r1, known)
-    sh = Shrinker(flavour, prop, lanes, sig, max_attempts=400 if r1["fatal"] else 700, max_seconds=60 if r1["fatal"] else 120)
+    sh = Shrinker(flavour, prop, lanes, sig, max_attempts=400 if r1["fatal"] else 700, max_seconds=60 if r1["fatal"] else 120, cold=cold)
     best = sh.run() or r1
     final_lanes = sh.lanes if sh.best_res else lanes
-    desc = exec_plan(flavour, prop, final_lanes, describe=True)
+    desc = exec_plan(flavour, prop, final_lanes, describe=True, cold=cold)
     e = match_known(prop, best, known) or (pre if pre and match_known(prop, best, [pre]) else None)
     sizes = dict((k, len(v)) for k, v in final_lanes.items())
-    replay = dict(property=prop, verif_seed=seed, run=idx, flavour=flavour, cls=best["cls"], site=best.get("site", ""), tags=best.get("tags", ""),
+    replay = dict(property=prop, verif_seed=seed, run=idx, flavour=flavour, cold=cold, cls=best["cls"], site=best.get("site", ""), tags=best.get("tags", ""),
                   detail=best.get("detail", ""), event_hash=best.get("hash", ""), lanes=final_lanes, lane_sizes=sizes,
                   original_lane_sizes=dict((k, len(v)) for k, v in (r1.get("lanes") or {}).items()), shrink_attempts=sh.attempts, plan=desc["notes"][:200])
     if e:
@@ -450,7 +454,7 @@ def process_violation(flavour, prop, seed, raw, known, outdir):
     with open(path, "w") as f:
         json.dump(replay, f, indent=1)
     # the minimised file must reproduce in a fresh process
-    chk = exec_plan(flavour, prop, final_lanes)
+    chk = exec_plan(flavour, prop, final_lanes, cold=cold)
     if chk["cls"] == "OK" or signature(chk) != sig:
         return dict(kind="harness", msg="minimised replay %s does not reproduce (%s vs %s)" % (path, signature(chk), sig))
     return dict(kind="violation", replay=replay, path=path)
@@ -525,8 +529,40 @@ def cmd_check(prop, tier, runs, jobs, seed):
                         stop = True
                     if not stop:
                         submit()
+        # cold runs (C19): one fresh process per run, no warm-up, the scheduled threads run before the sequential reference
+        cold_n = COLD_RUNS.get(prop, {}).get(tier, 0) if not runs else (COLD_RUNS.get(prop, {}).get("quick", 0) if runs >= 1000 else 0)
+        cold_done = 0
+        if cold_n and not stop:
+            if flavour != "asan":
+                cold_n = max(1, cold_n // 2)
+            def one_cold(k):
+                idx = COLD_BASE + k
+                try:
+                    p = subprocess.run([binary(flavour), "cold", prop, str(seed), str(idx)], stdout=subprocess.PIPE, stderr=subprocess.PIPE, timeout=300)
+                    rc, out, err = p.returncode, p.stdout.decode("utf-8", "replace"), p.stderr.decode("utf-8", "replace")
+                except subprocess.TimeoutExpired:
+                    return dict(idx=idx, cls="HANG_WALL", site="wall-clock", tags="", detail="cold run did not finish", fatal=True, hash="", cold=True)
+                m = re.search(r"^RESULT (\S+) cls=(\S+) hash=(\S+)", out, re.M)
+                if m and rc in (0, 1):
+                    if m.group(1) != "violation":
+                        return None
+                    tags = re.search(r"^TAGS (.*)$", out, re.M)
+                    detail = re.search(r"^DETAIL (.*)$", out, re.M)
+                    return dict(idx=idx, cls=m.group(2), site="", tags=tags.group(1) if tags else "", detail=detail.group(1) if detail else "", fatal=False, hash=m.group(3), cold=True)
+                cls, site, detail = classify_fatal(rc, err)
+                return dict(idx=idx, cls=cls, site=site, tags="", detail=detail, fatal=True, hash="", cold=True)
+            with cf.ThreadPoolExecutor(max_workers=jobs) as pool:
+                for item in pool.map(one_cold, range(cold_n)):
+                    cold_done += 1
+                    if item:
+                        pre = match_known(prop, item, known)
+                        if pre:
+                            known_hits[pre["id"]] = known_hits.get(pre["id"], 0) + 1
+                        else:
+                            raw.append(item)
         run_s = time.time() - tw
         st = merge_stats(stats)
+        st["cold_runs"] = cold_done
         st["distinct_nontrivial"] = count_distinct(outdir)
         st["run_seconds"] = run_s
         per_flavour[flavour] = st
@@ -611,7 +647,7 @@ def write_evidence(prop, tier, seed, cfg, per_flavour, found, known_hits, known_
             "counters": {k: v for k, v in main["counters"].items() if k not in faults and k not in knobs},
             "probes": main["probes"],
             "instrumented_basic_blocks": {"reached_by_one_worker_max": main["cov_reached"], "total": main["cov_total"]},
-            "per_flavour": {f: {"evaluations": s["evaluations"], "distinct_nontrivial": s["distinct_nontrivial"], "run_seconds": round(s["run_seconds"], 2)} for f, s in per_flavour.items()},
+            "per_flavour": {f: {"evaluations": s["evaluations"], "distinct_nontrivial": s["distinct_nontrivial"], "run_seconds": round(s["run_seconds"], 2), "cold_runs": s.get("cold_runs", 0)} for f, s in per_flavour.items()},
             "components": {
                 "real": ["BitSerializer headers and src/{common,csv,msgpack} built from /repo's working tree with -DBITSERIALIZER_VERIF", "RapidJSON 1.1.0", "pugixml 1.13", "libstdc++ iostreams above the streambuf"],
                 "stub": ["std::streambuf (simulated file/pipe)", "global operator new/delete (counting, k-th failure, cap)", "thread scheduling (C19 only)"],
@@ -649,7 +685,7 @@ def cmd_replay(path):
         rp = json.load(f)
     os.makedirs(os.path.join(VERIF, "out", "tmp"), exist_ok=True)
     build(rp.get("flavour", "asan"))
-    res = exec_plan(rp.get("flavour", "asan"), rp["property"], rp["lanes"], describe=True)
+    res = exec_plan(rp.get("flavour", "asan"), rp["property"], rp["lanes"], describe=True, cold=bool(rp.get("cold")))
     for n in res["notes"]:
         log("  | " + n[:400])
     same = res["cls"] == rp["cls"] and (not res["fatal"] or res["site"] == rp.get("site")) and (res["fatal"] or res["hash"] == rp.get("event_hash"))
